@@ -57,3 +57,11 @@ p["theorems"] += [
     T("Props.C11SysCompose.pair_passes", "full", "one generator/receiver pair with equal key strings in one storage outside the three classes agrees on every field the oracle tests"),
 ]
 
+
+# C12 reads the same stream: a coalesced client (overlapped pair) that is handed a response fetched for another resource,
+# outside the classes listed for C11, did not receive "the complete, correct response" (seeded change C12-m7)
+p = PROPS["C12"]
+p["streams"] += [S("sysk", 4000, 30000)]
+p["rule"] += (" | sysk (see C11): overlapped pairs on Vary: Origin resources with the echoing origin; oracle for C12: in a case with an overlapped pair no response outside C11's listed classes "
+              "carries the echo of another resource's request")
+p["trivial_labels"] = list(p.get("trivial_labels", [])) + ["rules-rejected"]
